@@ -170,6 +170,45 @@ func statusAfterCall(rel, fn, callee, leanName string) func() string {
 	}
 }
 
+// loopShape describes the range loop of IsPrecertificate: does the branch for a well-formed poison extension return
+// at once (`return true, nil` inside the loop) or only record it (`found = true`) and go on to the remaining
+// extensions; and what the function returns after the loop.
+func loopShape(rel, fn, leanName string) func() string {
+	return func() string {
+		fd := mustFunc(rel, fn)
+		var loops []*ast.RangeStmt
+		ast.Inspect(fd.Body, func(n ast.Node) bool {
+			if r, ok := n.(*ast.RangeStmt); ok {
+				loops = append(loops, r)
+			}
+			return true
+		})
+		if len(loops) != 1 {
+			panic(bail{fmt.Sprintf("%s: expected one range loop in %s, found %d", rel, fn, len(loops))})
+		}
+		stops, marks := false, ""
+		ast.Inspect(loops[0].Body, func(n ast.Node) bool {
+			switch x := n.(type) {
+			case *ast.ReturnStmt:
+				if len(x.Results) > 0 && src(x.Results[0]) == "true" {
+					stops = true
+				}
+			case *ast.AssignStmt:
+				if len(x.Lhs) == 1 && len(x.Rhs) == 1 && src(x.Rhs[0]) == "true" {
+					marks = src(x.Lhs[0])
+				}
+			}
+			return true
+		})
+		last, ok := fd.Body.List[len(fd.Body.List)-1].(*ast.ReturnStmt)
+		if !ok || len(last.Results) < 1 {
+			panic(bail{fmt.Sprintf("%s: %s does not end in a return", rel, fn)})
+		}
+		return fmt.Sprintf("/-- generated from %s func %s: the loop returns `true` at the first well-formed poison extension -/\ndef %sStopsAtFirst : Bool := %v\n/-- the variable the loop sets to `true` for a well-formed poison extension (\"\" = none) -/\ndef %sMarks : String := %s\n/-- what is returned after the loop -/\ndef %sFinalReturn : String := %s\n",
+			rel, fn, leanName, stops, leanName, strconv.Quote(marks), leanName, strconv.Quote(src(last.Results[0])))
+	}
+}
+
 func init() {
 	cc := "trillian/ctfe/cert_checker.go"
 	hh := "trillian/ctfe/handlers.go"
@@ -227,6 +266,7 @@ func init() {
 		// ---- IsPrecertificate / verifyAddChain
 		{"poisonInvalid", condKernel(cc, "IsPrecertificate", []string{"ext.Critical"}, "poisonInvalid", "(critical valueIsNull : Bool)",
 			Spec{Kind: "i64", Repl: map[string]string{"ext.Critical": "critical", "bytes.Equal(asn1.NullBytes, ext.Value)": "valueIsNull"}})},
+		{"poisonLoop", loopShape(cc, "IsPrecertificate", "poisonLoop")},
 		{"kindMismatch", condKernel(hh, "verifyAddChain", []string{"isPrecert", "expectingPrecert"}, "kindMismatch", "(isPrecert expectingPrecert : Bool)",
 			Spec{Kind: "i64", Repl: map[string]string{"isPrecert": "isPrecert", "expectingPrecert": "expectingPrecert"}})},
 		// ---- x509.CheckSignatureFrom
